@@ -128,6 +128,11 @@ def _detect_once(trees, known):
                     continue
                 a, b = set(want_fp), set(n_fp)
                 sim = len(a & b) / float(len(a | b) or 1)
+                # the names themselves are evidence too: `_load_graph_impl` for `_load_graph`
+                import difflib
+                mm, nn = m.strip('_'), n.strip('_')
+                if mm and (mm in nn or nn in mm or difflib.SequenceMatcher(None, mm, nn).ratio() >= 0.8):
+                    sim = max(sim, 0.6)
                 scored.append((sim, m, n))
         # accept mutual unique best matches (a recorded method and a fresh method that are each
         # other's clearly best candidate)
